@@ -85,6 +85,9 @@ def callee_unresolved(term):
 
 
 # ----------------------------------------------------------------- function
+ADTS = {}
+
+
 class Fn:
     def __init__(self, name, j, types):
         self.name = name
@@ -837,6 +840,7 @@ class Facts:
         self.fns = {n: Fn(n, j, self.types) for n, j in self.j['fns'].items()}
         self.consts = {n: Fn(n, j, self.types) for n, j in (self.j.get('consts') or {}).items()}   # initialisers of named constants
         self.adts = self.j['adts']
+        ADTS.update(self.adts)        # field-less enums: pathq reads `match` on them as the `==` tests they stand for
         self.overflow_checks = self.j['overflow_checks']
         self.tag = self.j.get('tag', '')
         self._callers = None
